@@ -282,7 +282,11 @@ def ensure_built(prop, gens, need_driver=True, need_harness=True, extra_go=()):
         if not ok:
             res.broken.append({"kind": "extractor", "name": "T-gen extraction of " + ",".join(gens),
                                "detail": "the extractor could not read the working tree: " + err[-600:]})
-        ok, logtxt = lake_build([module])
+        # (companion modules Props/<prop><Suffix>.lean are built with the main one whether or not it imports them: a stale object
+        #  file of a companion must never be audited in place of what the sources say now)
+        companions = ["GooseVerif.Props." + os.path.basename(x)[:-5] for x in sorted(glob.glob(os.path.join(LEAN, "GooseVerif", "Props", prop + "?*.lean")))
+                      if not os.path.basename(x)[len(prop)].isdigit()]
+        ok, logtxt = lake_build([module] + companions)
         res.lake_log = logtxt
         short = prop
         if not ok:
@@ -300,8 +304,8 @@ def ensure_built(prop, gens, need_driver=True, need_harness=True, extra_go=()):
         else:
             res.theorems = audit(module)
             # companion modules Props/<prop><Suffix>.lean (imported by the main one) belong to the same property
-            for extra in sorted(glob.glob(os.path.join(LEAN, "GooseVerif", "Props", prop + "?*.lean"))):
-                res.theorems += audit("GooseVerif.Props." + os.path.basename(extra)[:-5])
+            for extra in companions:
+                res.theorems += audit(extra)
             names = {t["name"].split(".")[-1] for t in res.theorems}
             for want in expected_obligations(short):
                 if want not in names:
